@@ -15,6 +15,7 @@ pub fn dispatch(f: &[String]) -> String {
         "repl" => repl(&f[1], &f[2], &f[3..]),
         "reexec" => reexec(&f[1], &f[2], &f[3]),
         "stdsig" => stdsig(),
+        "parse3" => parse3(&f[1], &f[2]),
         "progt" => progt(&f[1], &f[2], &f[3], &f[4]),
         "threads" => threads(&f[1], &f[2], &f[3], &f[4], &f[5], &f[6]),
         "stdin" => with_stdin(&f[1], &f[2..]),
@@ -776,4 +777,38 @@ fn progt(flags: &str, threads: &str, iters: &str, src: &str) -> String {
         }
     }
     format!("(progt seq={} runs={} differing=({}))", seq_plain, total, differing.join(" "))
+}
+
+
+/// `parse3 <which> <text>`: the three text entry points under catch_unwind, nothing is executed.
+/// `which` = `c` (Code::parse with the standard library only), `a` (also Variable::from_str and
+/// Type::from_str).
+fn parse3(which: &str, text: &str) -> String {
+    use std::str::FromStr;
+    let interp = Interpreter::with_stdlib();
+    let code = match panic::catch_unwind(AssertUnwindSafe(|| Code::parse(&interp, text))) {
+        Err(_) => format!("(panic {})", take_panic()),
+        Ok(Err(e)) => format!("(err {})", canon::variant_name(&format!("{e:?}"))),
+        Ok(Ok(c)) => {
+            // the static type is part of the result of checking
+            match panic::catch_unwind(AssertUnwindSafe(|| c.return_type())) {
+                Ok(_) => "ok".into(),
+                Err(_) => format!("(panic {})", take_panic()),
+            }
+        }
+    };
+    if which != "a" {
+        return format!("(parse3 code={code})");
+    }
+    let value = match panic::catch_unwind(AssertUnwindSafe(|| Variable::from_str(text))) {
+        Err(_) => format!("(panic {})", take_panic()),
+        Ok(Err(_)) => "err".into(),
+        Ok(Ok(_)) => "ok".into(),
+    };
+    let ty = match panic::catch_unwind(AssertUnwindSafe(|| Type::from_str(text))) {
+        Err(_) => format!("(panic {})", take_panic()),
+        Ok(Err(_)) => "err".into(),
+        Ok(Ok(_)) => "ok".into(),
+    };
+    format!("(parse3 code={code} value={value} type={ty})")
 }
